@@ -252,11 +252,11 @@ Qed.
 Lemma dests_match_perm : forall gs ws, NoDup (keys gs) -> NoDup (map write_dest ws) ->
   dests_match gs ws = true -> Permutation (map write_dest ws) (keys gs).
 Proof.
-  intros gs ws Hg Hw H. unfold dests_match in H.
+  intros gs ws Hg Hw H. unfold dests_match, dests_match_list in H.
   apply andb_true_iff in H as [H H3]. apply andb_true_iff in H as [H1 H2].
   apply NoDup_Permutation; [exact Hw|exact Hg|]. intro d. split.
-  - intro Hin. apply in_map_iff in Hin as [w [<- Hw']]. rewrite forallb_forall in H3. specialize (H3 w Hw').
+  - intro Hin. rewrite forallb_forall in H3. specialize (H3 d Hin).
     apply existsb_exists in H3 as [g [Hg' E]]. apply dest_eqb_eq in E. rewrite E. apply in_map. exact Hg'.
   - intro Hin. apply in_map_iff in Hin as [g [<- Hg']]. rewrite forallb_forall in H2. specialize (H2 g Hg').
-    apply existsb_exists in H2 as [w [Hw' E]]. apply dest_eqb_eq in E. rewrite <- E. apply in_map. exact Hw'.
+    apply existsb_exists in H2 as [d [Hd E]]. apply dest_eqb_eq in E. rewrite <- E. exact Hd.
 Qed.
